@@ -237,3 +237,17 @@ def tap_complex_quantizer(q):
         return out
     q.quantize = tapped
     return q
+
+
+def unit_noise_channel_stds(M, P, window_name='hamming'):
+    """Deviation of the real and of the imaginary parts of the channelised output (pooled over the P/2 lower channels)
+    when the input is white real noise of unit variance -- computed from the filterbank DEFINITION:
+    Re X_k = P^-1/2 sum_n w_n x_n cos(2 pi n k / P)  =>  var = (1/P) sum_n w_n^2 cos^2(2 pi n k / P)   (sin^2 for Im)."""
+    w = np.asarray(ref_window(M, P, window_name), dtype=float)
+    n = np.arange(M * P)
+    vr = vi = 0.0
+    for k in range(P // 2):
+        ang = 2 * np.pi * (n % P) * k / P
+        vr += np.sum(w ** 2 * np.cos(ang) ** 2) / P
+        vi += np.sum(w ** 2 * np.sin(ang) ** 2) / P
+    return np.sqrt(vr / (P // 2)), np.sqrt(vi / (P // 2))
